@@ -38,9 +38,9 @@ Section P.
       destruct j; cbn in *; [inversion Hn; auto|eapply IH; eauto]. }
     assert (E : forall l i, (forall j K p pw, nth_error l j = Some (K, (p, pw)) -> nth_error (positions 0 dims) (i + j) = Some p) ->
        omapi i (fun k (Kp : Kernel N * ((nat * nat) * (nat * nat))) => let '(K, (p, pw)) := Kp in
-                  if existsb (Nat.eqb k) skip then Some n1 else k_choice K (chanW pw Ws) (chan p x) (chan pw w)) l =
+                  if existsb (Nat.eqb k) skip then Some n0 else k_choice K (chanW pw Ws) (chan p x) (chan pw w)) l =
        omapi i (fun k (Kp : Kernel N * ((nat * nat) * (nat * nat))) => let '(K, (p, pw)) := Kp in
-                  if existsb (Nat.eqb k) skip then Some n1 else k_choice K (chanW pw Ws) (chan p x') (chan pw w)) l).
+                  if existsb (Nat.eqb k) skip then Some n0 else k_choice K (chanW pw Ws) (chan p x') (chan pw w)) l).
     { induction l as [|[K [p pw]] l IH]; intros i Hl; cbn [omapi]; [reflexivity|].
       destruct (existsb (Nat.eqb i) skip) eqn:Es.
       - cbn [obind]. rewrite IH; [reflexivity|]. intros j K' p' pw' Hj. replace (S i + j) with (i + S j) by lia. eapply Hl. exact Hj.
